@@ -325,6 +325,46 @@ HeadersView(m, s, e) ==       \* e = -1: no end height
        IN [tipHeight |-> last, headers |-> SubSeq(FullChain(m), s + 1, last + 1)]
 
 (***************************************************************************)
+(* Cycles (C16).  cfg.fees = [ub, ur, um,  bal, balm,  pct, pctm,  hb, hr, *)
+(* hm,  sb, sp]: base / per-ten-instructions rate / maximum of get_utxos,  *)
+(* flat fee / maximum of get_balance and of the fee percentiles, base /    *)
+(* rate / maximum of get_block_headers, base / per-byte of send_transaction*)
+(***************************************************************************)
+MinOf2(a, b) == IF a < b THEN a ELSE b
+
+\* the amount a call must carry to be accepted at all
+Required(f, ep, len) ==
+  CASE ep = "get_utxos" -> f.um
+    [] ep = "get_balance" -> f.balm
+    [] ep = "get_current_fee_percentiles" -> f.pctm
+    [] ep = "get_block_headers" -> f.hm
+    [] ep = "send_transaction" -> f.sb + f.sp * len
+
+\* cycles accepted from an update call that passed the gate and carried enough;
+\* success = the request did not fail with a request-level error
+Charged(f, ep, success, instr, len) ==
+  CASE ep = "get_utxos" -> f.ub + (IF success THEN MinOf2((instr \div 10) * f.ur, f.um - f.ub) ELSE 0)
+    [] ep = "get_balance" -> f.bal
+    [] ep = "get_current_fee_percentiles" -> f.pct
+    [] ep = "get_block_headers" -> f.hb + (IF success THEN MinOf2((instr \div 10) * f.hr, f.hm - f.hb) ELSE 0)
+    [] ep = "send_transaction" -> f.sb + f.sp * len
+
+\* avail = -1 stands for "more than any maximum"
+Enough(f, ep, len, avail) == avail < 0 \/ avail >= Required(f, ep, len)
+
+(***************************************************************************)
+(* send_transaction (C19): cls = "valid" iff the payload is exactly the    *)
+(* consensus serialisation of one transaction.                             *)
+(***************************************************************************)
+SendTxOutcome(m, net, cls, len, avail) ==
+  IF Refuses(m, "send_transaction", net) THEN "refuse"
+  ELSE IF ~Enough(m.cfg.fees, "send_transaction", len, avail) THEN "cycles"
+  ELSE IF cls = "valid" THEN "ok" ELSE "malformed"
+
+SendTx(m, net, cls, len, avail) ==
+  IF SendTxOutcome(m, net, cls, len, avail) = "ok" THEN [m EXCEPT !.cnt.sendtx = @ + 1] ELSE m
+
+(***************************************************************************)
 (* Bookkeeping that the unstable tree requires (C20), declaratively.       *)
 (***************************************************************************)
 Creates(b) == UNION {{<<t, j>> : j \in 1..Len(Outs(t))} : t \in {Txs(b)[i] : i \in 1..Len(Txs(b))}}
